@@ -216,6 +216,12 @@ def parser_case(ops):
                                         "N" if off is None else str(off))
                 p.parse(src, off)
                 exp = "ok " + parser_digest(p)
+            elif k == "lines":
+                src, off = op[1], op[2]
+                line = "lines %s %s" % ("N" if src is None else "S" + impl.hexs(src),
+                                        "N" if off is None else str(off))
+                digs = [parser_digest(q) for q in p.parseLines(src, off)]
+                exp = "ok " + " | ".join(digs + [parser_digest(p)])
             elif k == "validate":
                 line = "validate"
                 p.validate()
@@ -247,7 +253,7 @@ def parser_case(ops):
         except (ValueError, AssertionError, IndexError) as exc:
             exp = "err " + impl.err_kind(exc)
         steps.append(Step(line, 1, eq([exp]), label=repr(op)))
-        if exp.startswith("err") and k == "parse":
+        if exp.startswith("err") and k in ("parse", "lines"):
             break
     return Case("parser", steps, {"kind": "parser", "ops": [list(o) for o in ops]})
 
@@ -264,6 +270,9 @@ def gen_parser_case(r):
             ops.append(("parse", text, 0))
             for _ in range(r.randint(0, 4)):
                 ops.append(("parse", None, None))
+            if r.random() < 0.5:
+                ops.append(("lines", None, None) if r.random() < 0.5 else
+                           ("lines", text, r.choice([None, 0, r.randint(0, len(text) + 1)])))
         elif k < 0.7:
             ops.append(("stringify", r.choice([" ", "", "  "]), r.randint(0, 1), r.randint(0, 1),
                         r.choice([None, 0, 1]), r.randint(0, 1), r.randint(0, 1)))
